@@ -181,19 +181,33 @@ fn decode_frames(bytes: &[u8], from: usize) -> Vec<RaftWalEntry> {
 
 fn real_recover(path: &Path) -> String {
     match RaftWal::open(path) {
-        Err(e) => format!("err open {}", err_class(&e.to_string())),
+        Err(e) => format!("err open {}", err_class(&e)),
         Ok(w) => match w.replay() {
-            Err(e) => format!("err {}", err_class(&e.to_string())),
+            Err(e) => format!("err {}", err_class(&e)),
             Ok(es) => format!("ok n={} {}", es.len(), rstate_tok(&RaftRecoveryState::from_entries(&es))),
         },
     }
 }
 
-fn err_class(s: &str) -> &'static str {
-    if s.contains("hecksum") {
+/// Error canonicalisation (BUILDING.md), rule 1: by the structured part of the error, never its wording.
+/// The raft WAL API returns `io::Error`; `impl From<WalError> for io::Error` (raft_wal.rs) keeps a genuine
+/// I/O error as it is (its kind is the OS's, never `Other`) and wraps every WAL-level refusal with
+/// `io::Error::other(text)` = kind `Other`. On the open / replay path the only WAL-level refusal is
+/// `ChecksumMismatch` (the model's only error, `err checksum`); on the append path see `append_err`.
+fn err_class(e: &std::io::Error) -> &'static str {
+    if e.kind() == std::io::ErrorKind::Other {
         "checksum"
     } else {
         "io"
+    }
+}
+/// `RaftWal::append` with a size limit: the WAL-level refusal (kind `Other`) is `SizeLimitExceeded`, the one
+/// refusal the model of the size rule knows (`err size`); a genuine I/O error is named by its kind.
+fn append_err(e: &std::io::Error) -> String {
+    if e.kind() == std::io::ErrorKind::Other {
+        "err size".to_string()
+    } else {
+        format!("err:io:{:?}", e.kind())
     }
 }
 
@@ -473,7 +487,7 @@ fn apply_real(lv: &mut Live, ev: &Ev) -> String {
             let meta = SnapshotMetadata::new(*i, 0, [0u8; 32], peers, 0);
             match n.truncate_log(&meta) {
                 Ok(()) => "none".into(),
-                Err(e) => format!("err:{e}"),
+                Err(e) => format!("err:{}", format!("{e:?}").split(|c: char| !c.is_alphanumeric()).next().unwrap_or("")),
             }
         }
         Ev::Lead => {
@@ -530,9 +544,12 @@ fn apply_real(lv: &mut Live, ev: &Ev) -> String {
             match n.propose(mk_block(*c)) {
                 Ok(i) => format!("proposed:{i}"),
                 // errors are mapped by VARIANT, never by message wording (a reworded message is not a
-                // behaviour change); `ConsensusError` carries several refusals, told apart by its text
+                // behaviour change). `ConsensusError(String)` carries three refusals of `propose` (not leader,
+                // leadership transfer in progress, quorum not available); the harness rules the last two out
+                // before the call (no transfer is ever started, two followers just answered), the model has the
+                // ONE refusal `notleader`, and the C10 oracles only use `proposed:<i>`: one token (rule 2).
                 Err(tensor_chain::ChainError::StorageError(_)) => "walfail".into(),
-                Err(tensor_chain::ChainError::ConsensusError(m)) if m.contains("not leader") => "notleader".into(),
+                Err(tensor_chain::ChainError::ConsensusError(_)) => "notleader".into(),
                 Err(e) => format!("err:{}", format!("{e:?}").split(|c: char| !c.is_alphanumeric()).next().unwrap_or("")),
             }
         }
@@ -575,7 +592,7 @@ fn apply_real(lv: &mut Live, ev: &Ev) -> String {
             };
             match res {
                 Ok(()) => "snap:1".into(),
-                Err(e) if e.starts_with("helper:") => format!("err:{e}"),
+                Err(e) if e.starts_with("helper:") => "err:helper".into(),
                 Err(_) => "snap:0".into(),
             }
         }
@@ -1360,7 +1377,7 @@ fn run_case(cx: &mut Ctx, r: &mut Rng, case_no: u64, max_crashes: usize, script:
                     let nonempty = obl.acted > 0 || !obl.votes.is_empty() || !obl.acked.is_empty();
                     if !light {
                         let hist = history.clone();
-                        cx.rep.compare("cut.restart", || json!({"history": hist, "cut": n}), &format!("err {}", err_class(&e.to_string())), &mo_node);
+                        cx.rep.compare("cut.restart", || json!({"history": hist, "cut": n}), &format!("err {}", err_class(&e)), &mo_node);
                     }
                     if nonempty {
                         cx.rep.violation(
@@ -1554,7 +1571,7 @@ fn run_raw(cx: &mut Ctx, r: &mut Rng, case_no: u64) {
         let want = format!("ok n={} {}", expect.len(), rstate_tok(&RaftRecoveryState::from_entries(&expect)));
         let imp = match &res {
             Ok(es) => format!("ok n={} {}", es.len(), rstate_tok(&RaftRecoveryState::from_entries(es))),
-            Err(e) => format!("err {}", err_class(&e.to_string())),
+            Err(e) => format!("err {}", err_class(&e)),
         };
         let mo = cx.m.ask(&format!("recover {}", hex(&after)));
         let more_toks: Vec<String> = more.iter().map(rec_tok).collect();
@@ -1814,8 +1831,7 @@ fn run_rot_raw(cx: &mut Ctx, r: &mut Rng, case_no: u64) {
         toks.push(rec_tok(&rec));
         let imp = match &res {
             Ok(()) => wal_files_tok(&path),
-            Err(e) if e.to_string().contains("size limit") => "err size".to_string(),
-            Err(e) => format!("err {e}"),
+            Err(e) => append_err(e),
         };
         if res.is_ok() {
             all.push(rec.clone());
@@ -1838,7 +1854,7 @@ fn run_rot_raw(cx: &mut Ctx, r: &mut Rng, case_no: u64) {
         // oracle: a restart (from_wal) must see everything that was appended
         let got = match w.replay() {
             Ok(es) => rstate_tok(&RaftRecoveryState::from_entries(&es)),
-            Err(e) => format!("err {}", err_class(&e.to_string())),
+            Err(e) => format!("err {}", err_class(&e)),
         };
         let want = rstate_tok(&RaftRecoveryState::from_entries(&all));
         if got != want {
